@@ -4,12 +4,13 @@
    The ALAP half is checked on the implementation only. *)
 From Coq Require Import List Arith.
 Require Import SP.Model.Sched SP.Proofs.SchedWalk SP.Proofs.SchedFinal.
+Require Import SP.Model.Alap SP.Proofs.AlapProofs.
 Import ListNotations.
 
 Theorem C08_asap : forall p t r f e,
   leaf_dates (schedule p) t = Some (f, e) -> t_need (task_of p t) <> 0 ->
   t_team (task_of p t) = [r] -> limits_of p t r = [] ->
-  exists b, b <= f /\
+  exists b, b <= f /\ (forall s, t_pin (task_of p t) = Some s -> b = s) /\
     (t_pin (task_of p t) = None -> forall d, In d (t_deps (task_of p t)) ->
        exists s' e', dates p (schedule p) (d_task d) = Some (s', e') /\ (if d_onstart d then s' else e') + d_gap d <= b) /\
     forall x, b <= x -> x < e ->
@@ -17,3 +18,20 @@ Theorem C08_asap : forall p t r f e,
       exists y, In y (bookings (schedule p)) /\ b_res y = r /\ b_slot y = x /\ b_task y <> t.
 Proof. exact no_idle. Qed.
 Print Assumptions C08_asap.
+
+(* ---- backward (ALAP) mode: the project record is read backwards (Model/Alap.v: t_deps = successor edges,
+   t_pin = own end, t_lb = earliest deadline of the enclosing containers, n = p_upper slots) and the schedule
+   is the mirror image of the forward schedule of the mirrored project *)
+(* latest fit: dl is the deadline (own end | earliest successor start minus gap, container deadlines, project
+   end); between the task's start and dl every slot is the task's, non-working, or another task's *)
+Theorem C08_alap : forall p t r f e, alap_leaf_dates p t = Some (f, e) -> t_need (task_of p t) <> 0 ->
+  t_team (task_of p t) = [r] -> limits_of p t r = [] ->
+  exists dl, e <= dl /\ dl <= p_upper p /\
+    (forall s, t_pin (task_of p t) = Some s -> s <= p_upper p -> dl = s) /\
+    (t_pin (task_of p t) = None -> forall d, In d (t_deps (task_of p t)) ->
+       exists s' e', alap_dates p (d_task d) = Some (s', e') /\ dl + d_gap d <= (if d_onstart d then e' else s')) /\
+    forall x, f <= x -> x < dl ->
+      In (mk t r x) (alap_bookings p) \/ r_work (res_of p r) x = false \/
+      exists y, In y (alap_bookings p) /\ b_res y = r /\ b_slot y = x /\ b_task y <> t.
+Proof. exact alap_no_idle. Qed.
+Print Assumptions C08_alap.
